@@ -16,6 +16,11 @@ VARIANTS = [p + g + s for p in "CP" for g in "GU" for s in "SN"]
 GENERAL = [p + "V" + s for p in "CP" for s in "SN"]
 
 # ---------------------------------------------------------------- generators
+def case_seqs(c):
+    """the key sequences of a case line (skipping class, sentinel and the optional registration order o=...)"""
+    t = c.split()
+    return t[3:] if len(t) > 2 and t[2].startswith("o=") else t[2:]
+
 def seq_txt(s):
     return ",".join(map(str, s)) if s else "-"
 
@@ -126,8 +131,29 @@ def flip_keys(c):
     m = lambda x: str(100 - int(x))
     out = [t[0], "0" if t[0][1] == "G" else m(t[1])]
     for sq in t[2:]:
-        out.append("-" if sq == "-" else ",".join(m(x) for x in sq.split(",")))
+        out.append(sq if sq == "-" or sq.startswith("o=") else ",".join(m(x) for x in sq.split(",")))
     return " ".join(out)
+
+def add_orders(rng, cases, start):
+    """registration order of the insert_start calls, from the seed: ascending (no token), descending, or shuffled"""
+    for i in range(start, len(cases)):
+        t = cases[i].split()
+        k = len(t) - 2
+        if k < 2 or t[2].startswith("o="):
+            continue
+        r = rng.below(5)
+        if r < 2:
+            continue
+        order = list(range(k))
+        if r == 2:
+            order.reverse()
+        else:
+            for j in range(k - 1, 0, -1):
+                x = rng.below(j + 1)
+                order[j], order[x] = order[x], order[j]
+            if order == list(range(k)):
+                order.reverse()
+        cases[i] = " ".join(t[:2] + ["o=" + ",".join(map(str, order))] + t[2:])
 
 REGIME_K = [1, 2, 3, 5, 6, 7, 8, 9, 16, 17, 33, 40]
 def regimes(rng, out, hist):
@@ -196,6 +222,7 @@ else:
     for _ in range(NR):
         cases.append(random_case(rng))
     add_flavours(rng, cases, ncorpus)
+    add_orders(rng, cases, ncorpus)
     for i in range(ncorpus, len(cases)):
         cases[i] = flip_keys(cases[i])
 casefile = os.path.join(ck.scratch, "cases.txt")
@@ -204,8 +231,7 @@ with open(casefile, "w") as f:
 
 # ---------------------------------------------------------------- run both sides
 def is_nontrivial(c):
-    t = c.split()
-    seqs = t[2:]
+    seqs = case_seqs(c)
     k = len(seqs)
     if k < 2:
         return False
@@ -256,6 +282,10 @@ def api_surface():
          "cases": {v: g(v + "/store=l") for v in sorted(stats)}},
         {"api": "key storage: heap temporary freed right after insert_start / delete_min_insert returns (copy classes: the key must have been copied)",
          "called": g("store=t") > 0, "cases": {v: g(v + "/store=t") for v in sorted(stats) if v[0] == "C"}},
+        {"api": "insert_start calls in ascending / descending / shuffled player order (the index is an argument), exhausted players at any position",
+         "called": g("order=descending") > 0 and g("order=shuffled") > 0,
+         "cases": {"ascending": g("order=ascending"), "descending": g("order=descending"), "shuffled": g("order=shuffled"),
+                   "per class non-ascending": {v: g(v + "/order=descending") + g(v + "/order=shuffled") for v in sorted(stats)}}},
         {"api": "insert_start(nullptr, source, true) (player exhausted from the start; guarded classes)", "called": g("insert_start(nullptr,i,true)") > 0, "cases": g("insert_start(nullptr,i,true)")},
         {"api": "init() / init_winner(root) (init_winner is public but only meaningful from init(); reached through init())", "called": True, "cases": sum(stats.values())},
         {"api": "min_source() after init() and after every delete_min_insert()", "called": True, "cases": sum(stats.values())},
@@ -319,7 +349,7 @@ else:
             b = model[idx].rstrip()
             v = c[:3]
             stats[v] += 1
-            kk = len(c.split()) - 2
+            kk = len(case_seqs(c))
             fl = c.split(" ", 1)[0].split(":")
             if len(fl) == 5:
                 for tag in (fl[1], "cmp=" + fl[2], "via=" + fl[3], v[:2] + "/" + fl[1], v[:2] + "/cmp=" + fl[2],
@@ -328,8 +358,18 @@ else:
                 if fl[3] == "s":
                     fstats["switch->" + ("copy" if v[0] == "C" else "pointer") + ("" if v[1] == "G" else " unguarded")] = \
                         fstats.get("switch->" + ("copy" if v[0] == "C" else "pointer") + ("" if v[1] == "G" else " unguarded"), 0) + 1
+            otok = c.split()[2]
+            if otok.startswith("o="):
+                o = otok[2:].split(",")
+                okind = "descending" if o == [str(x) for x in range(len(o) - 1, -1, -1)] else "shuffled"
+                fstats["order=" + okind] = fstats.get("order=" + okind, 0) + 1
+                fstats[v + "/order=" + okind] = fstats.get(v + "/order=" + okind, 0) + 1
+                if o[0] != "0" and v[:2] == "CG":
+                    fstats["CG/first-registered-is-not-player-0"] = fstats.get("CG/first-registered-is-not-player-0", 0) + 1
+            else:
+                fstats["order=ascending"] = fstats.get("order=ascending", 0) + 1
             if v[1] == "G":
-                sq = c.split()[2:]
+                sq = case_seqs(c)
                 if "-" in sq:
                     fstats["insert_start(nullptr,i,true)"] = fstats.get("insert_start(nullptr,i,true)", 0) + 1
                     if sq[0] == "-" and any(x != "-" for x in sq[1:]):
